@@ -68,6 +68,8 @@ def fit_case(case):
     where["n"] = n
     where["d"] = d
     # estimator-protocol route: on the seed-axis deviation the hyperparameters arrive through set_params on a default estimator
+    if p["seed"] == 1:      # ... and spelled as numpy integers (values taken from an array, a grid of a model-selection tool)
+        kw = {k: (np.int64(x) if isinstance(x, int) and not isinstance(x, bool) and k != "random_state" else x) for k, x in kw.items()}
     model = Kauri(**kw) if p["seed"] == 0 else Kauri().set_params(**kw)
     if n < msl:
         try:
